@@ -426,7 +426,7 @@ def gen_cases(run, scale):
     # directed: typed texts (format-hostile tokens, isdigit()-but-not-int() digits, INF/NaN, over-long literals,
     # malformed datetimes) at every typed text position: property value, array item, key value, qualifier value
     gi, ein = L.op_by_name('GetInstance'), L.op_by_name('EnumerateInstanceNames')
-    key_texts = L.HOSTILE + L.ISDIGIT_NOT_INT + L.FLOAT_EDGE[:6] + L.FLOAT_EDGE[-6:] + ['INF', 'NaN', '1e400', '', 'x', '256', '0x' + 'f' * 3600, '9' * 4301,
+    key_texts = L.HOSTILE + L.ISDIGIT_NOT_INT + L.FLOAT_EDGE[:6] + L.FLOAT_EDGE[-6:] + ['INF', 'NaN', '1e400', '', 'x', '256', '0x', '0X', '-0x', '+0X', '0x1F', '-0x8', '0x' + 'f' * 3600, '9' * 4301,
                                                   '20240101000000.000000+000', '2024{0}01000000.000000+000',
                                                   '20241301000000.000000+000', '12345678{x}2345.123456:000']
     for ty in L.SCALAR_TYPES:
